@@ -295,7 +295,7 @@ def r3(ctx):
 
 
 SHAPE_CASES = [('point', 2), ('text', 2), ('circle', 3), ('line', 4), ('polygon', 6), ('ellipse', 5), ('box', 5),
-               ('ellipse', 4), ('box', 4),
+               ('ellipse', 4), ('box', 4), ('ellipse', 6), ('box', 6), ('ellipse', 8), ('box', 8),
                ('annulus', 4), ('annulus', 6), ('ellipse', 7), ('box', 7), ('ellipse', 9), ('box', 9)]
 
 
@@ -314,7 +314,8 @@ def r4(ctx):
             if shape == 'annulus':
                 nexp, cls = n - 3, 'CircleAnnulus'
             elif shape in ('ellipse', 'box') and n > 5:
-                nexp = (n - 3) // 2 - 1
+                # (an even count: the optional angle is absent, the sizes are the same pairs)
+                nexp = (n + (n % 2 == 0) - 3) // 2 - 1
                 cls = 'EllipseAnnulus' if shape == 'ellipse' else 'RectangleAnnulus'
             else:
                 nexp = 1
@@ -424,7 +425,11 @@ def _template_check(m, shape, rt, n, regs):
             for fld, i in want.items():
                 if _lex(r.fields.get(fld)) != (i, 'size', dbl):
                     probs.append(f'annulus {k}: {fld} is {show(r.fields.get(fld), 70)}; expected parameter {i} as a length x{dbl}')
-            if _lex(r.fields.get('angle')) != (n - 1, 'angle', 1):
+            if n % 2 == 0:
+                ang = show(r.fields.get('angle'), 80)
+                if "'0'" not in ang and ang not in ('0', '0.0'):
+                    probs.append(f'annulus {k}: without the optional angle the angle is {ang}, not the default 0')
+            elif _lex(r.fields.get('angle')) != (n - 1, 'angle', 1):
                 probs.append(f'annulus {k}: angle is not the last parameter')
     return probs
 
@@ -593,6 +598,8 @@ def r6(ctx):
 SHAPE_LINE_PROBES = [
     ('circle', 'circle(1,2,3) # color=red text={a # b}', "['1,2,3', 'color=red text={a # b}']", 'only the first # separates the metadata'),
     ('text', '# text(1,2) text={hi}', "['1,2', 'text={hi}']", 'the "# text(...)" form DS9 itself writes'),
+    ('text', '# text(10, 20) text={hi}', "['10, 20', 'text={hi}']", 'blanks and commas are interchangeable separators, also in the "# text(" form'),
+    ('text', '# text(10 20) color=red text={hi}', "['10 20', 'color=red text={hi}']", 'blank-separated parameters in the "# text(" form'),
     ('circle', 'circle 1 2 3', "['1 2 3', '']", 'parentheses and commas are optional'),
     ('text', 'text(1,2) # text={hi}', "['1,2', 'text={hi}']", 'ordinary text region'),
     ('box', '-box(1,2,3,4,0) ||', "['1,2,3,4,0', '']", 'composite continuation marker is not a parameter'),
@@ -672,6 +679,23 @@ def _doc_cases():
           ('image', 'pixel', 'text', '1,2', {'include': 1, 'text': 'hi'})]),
         ('a comment line is a comment up to the end of the line', 'image\n# note; circle(1,2,3)\ncircle(4,5,6)\n#circle(7,8,9);circle(1,1,1)',
          [('image', 'pixel', 'circle', '4,5,6', I1)]),
+        ('keywords are case-insensitive, also in the "# text(" / "# composite(" forms',
+         'image\n# TEXT(1,2) text={Hi}\n# Composite(1,2,0) || composite=1 color=red\ncircle(1,2,3) ||\nbox(1,2,3,4,0)',
+         [('image', 'pixel', 'text', '1,2', {'include': 1, 'text': 'Hi'}),
+          ('image', 'pixel', 'circle', '1,2,3', {'color': 'red', 'include': 1}),
+          ('image', 'pixel', 'box', '1,2,3,4,0', {'color': 'red', 'include': 1})]),
+        ('text and tag on a composite line are kept verbatim',
+         'image\n# composite(1,2,0) || composite=1 text={Hello World}\ncircle(1,2,3) ||\nbox(1,2,3,4,0)',
+         [('image', 'pixel', 'circle', '1,2,3', {'text': 'Hello World', 'include': 1}),
+          ('image', 'pixel', 'box', '1,2,3,4,0', {'text': 'Hello World', 'include': 1})]),
+        ('a composite ends with its last member, whatever that member is',
+         'image\n# composite(1,2,0) || composite=1 color=red\ncircle(1,2,3) ||\npanda(1,2,0,360,4,1,2,3)\ncircle(7,8,9)',
+         [('image', 'pixel', 'circle', '1,2,3', {'color': 'red', 'include': 1}), ('image', 'pixel', 'circle', '7,8,9', I1)]),
+        ('"||" inside a text is text',
+         'image\n# composite(1,2,0) || composite=1 color=red\ncircle(1,2,3) ||\ncircle(4,5,6) # text={a||b}\ncircle(7,8,9)',
+         [('image', 'pixel', 'circle', '1,2,3', {'color': 'red', 'include': 1}),
+          ('image', 'pixel', 'circle', '4,5,6', {'color': 'red', 'include': 1, 'text': 'a||b'}),
+          ('image', 'pixel', 'circle', '7,8,9', I1)]),
         ('frame aliases', 'J2000; circle 10:00:00 +20:00:00 3"\nb1950\ncircle(1,2,3)',
          [('j2000', 'sky', 'circle', '10:00:00 +20:00:00 3"', I1), ('b1950', 'sky', 'circle', '1,2,3', I1)]),
     ]
